@@ -3,7 +3,7 @@ import z3
 from .common import *  # noqa
 from .shared import *  # noqa
 from vc.reflect import reflect_bool_method
-from vc.speclemmas import STREAM, PUBL
+from vc.speclemmas import STREAM, PUBL, MAPL
 from contracts.pattern_family import c12_contracts
 from contracts.interp_sim import METHODS, PHASES_OF, SIFILE, SI
 from contracts.refine import (TFILE, OFILE, CFILE, BFILE, PFILE, ALL_METHODS, forward_unit, inst_optimizer_unit, refine_unit, counting_frame_unit, dsl_unit, diff_bounded, accept_unit)
@@ -24,6 +24,7 @@ def build(repo, tier):
     lib = py_lib(JE)
     lib.update(STREAM)
     lib.update(PUBL)
+    lib.update({k: v for k, v in MAPL.items() if v is not None})
     pid = 'C08'
     us = []
     for m in ALL_METHODS:
@@ -33,6 +34,7 @@ def build(repo, tier):
     for m in ('instantiate', 'instantiate_pattern'):
         us.append(Unit(f'{pid}/py/InstantiationOptimizer.{m}', inst_optimizer_unit(repo, cs, m), info={'split_depth': 1}))
     us.append(Unit(f'{pid}/py/MemoizingInterpreter.pattern', pattern_unit(repo, cs, 'Implies', True), info={'split_depth': 1}))
+    us.append(Unit(f'{pid}/py/Interpreter.pattern/Instantiate', pattern_unit(repo, cs, 'Instantiate', False), info={'split_depth': 1}))
     bounded = {}
     for k in (0, 1, 2, 3):
         n = f'{pid}/py/Interpreter.pattern/Instantiate [|map| = {k}]'
